@@ -305,3 +305,103 @@ Proof.
         specialize (H e Hin); rewrite Hd in H; apply opt_N_eqb_true in H; exact H
     end.
 Qed.
+
+(** ... and the step judge misses nothing either, for states that are trivial
+    outside the entry array and a step that leaves the outside alone *)
+Definition frame_outside (s s' : st) : Prop :=
+  forall e, 2 * cap s <= e ->
+    key s' e = key s e /\ ref s' e = ref s e /\ data s' e = data s e /\ est s' e = est s e.
+
+Lemma list_eqb_true a b : list_eqb a b = true -> a = b.
+Proof.
+  unfold list_eqb. intros H. apply andb_prop in H. destruct H as [Hl Hc]. apply Nat.eqb_eq in Hl.
+  revert b Hl Hc. induction a as [|x a IH]; intros [|y b] Hl Hc; cbn in *; try discriminate; [reflexivity|].
+  apply andb_prop in Hc. destruct Hc as [Hxy Hc]. apply Nat.eqb_eq in Hxy. subst.
+  f_equal. apply IH; [lia|exact Hc].
+Qed.
+
+Theorem step_okb_complete s o r ev s' :
+  scoped s -> frame_outside s s' -> step_okb s o r ev s' = true -> step_ok s o r ev s'.
+Proof.
+  intros Hsc Hfr Hb. unfold step_okb, step_okb_clauses in Hb. rewrite forallb_app in Hb.
+  apply andb_prop in Hb. destruct Hb as [Hcommon Hop]. cbn [forallb snd] in Hcommon.
+  apply andb_prop in Hcommon. destruct Hcommon as [Hkeep Hcommon].
+  apply andb_prop in Hcommon. destruct Hcommon as [Hev Hcommon].
+  apply andb_prop in Hcommon. destruct Hcommon as [Hcap _].
+  apply Nat.eqb_eq in Hcap.
+  unfold keeps_referencedb in Hkeep. rewrite forallb_forall in Hkeep. rewrite forallb_forall in Hev.
+  split; [|split; [|split; [exact Hcap|]]].
+  - intros e Hr Hr'. destruct (Nat.lt_ge_cases e (2 * cap s)) as [Hlt|Hge];
+      [|rewrite (proj2 (Hsc e Hge)) in Hr; lia].
+    specialize (Hkeep e (proj2 (in_eids s e) Hlt)).
+    destruct (Nat.eqb_spec (ref s e) 0); [lia|]. destruct (Nat.eqb_spec (ref s' e) 0); [lia|].
+    cbn [orb] in Hkeep.
+    apply andb_prop in Hkeep. destruct Hkeep as [Hkeep Hv].
+    apply andb_prop in Hkeep. destruct Hkeep as [Hkeep Hc].
+    apply andb_prop in Hkeep. destruct Hkeep as [Hk Hd].
+    apply N.eqb_eq in Hk. apply opt_nat_eqb_true in Hd. apply memb_true in Hc.
+    split; [exact Hk|]. split; [exact Hd|]. split; [exact Hc|].
+    intros Hval. rewrite (proj2 (estate_eqb_true _ _) Hval) in Hv. cbn [negb orb] in Hv.
+    apply andb_prop in Hv. destruct Hv as [Hv' Hct]. apply estate_eqb_true in Hv'.
+    split; [exact Hv'|]. intros t Hdt. rewrite Hdt in Hct. apply opt_N_eqb_true in Hct. exact Hct.
+  - intros v n Hin. specialize (Hev (v, n) Hin). cbn [fst snd] in Hev.
+    apply andb_prop in Hev. destruct Hev as [A B]. apply Nat.eqb_eq in A. apply Nat.eqb_eq in B.
+    split; assumption.
+  - destruct o as [k|e|e|e|];
+      try (cbn [forallb snd] in Hop; destruct r; try discriminate; reflexivity).
+    unfold get_okb_clauses in Hop. unfold get_ok. destruct r as [|e [|]|]; cbn [forallb snd] in Hop.
+    + apply andb_prop in Hop. destruct Hop as [Hsame Hop].
+      apply andb_prop in Hop. destruct Hop as [Hbusy Hop].
+      apply andb_prop in Hop. destruct Hop as [Hnk _].
+      split; [|split].
+      * unfold same_cacheb in Hsame.
+        repeat match type of Hsame with
+               | (_ && _) = true => apply andb_prop in Hsame; destruct Hsame as [Hsame ?]
+               end.
+        repeat match goal with
+               | H : list_eqb _ _ = true |- _ => apply list_eqb_true in H
+               | H : (_ =? _) = true |- _ => apply Nat.eqb_eq in H
+               end.
+        unfold same_cache. repeat (split; [assumption|]).
+        intros e. destruct (Nat.lt_ge_cases e (2 * cap s)) as [Hlt|Hge]; [|apply Hfr; exact Hge].
+        match goal with
+        | H : forallb _ (eids s) = true |- _ =>
+            rewrite forallb_forall in H; specialize (H e (proj2 (in_eids s e) Hlt));
+            apply andb_prop in H; destruct H as [H He4];
+            apply andb_prop in H; destruct H as [H He3];
+            apply andb_prop in H; destruct H as [He1 He2]
+        end.
+        apply N.eqb_eq in He1. apply Nat.eqb_eq in He2. apply opt_nat_eqb_true in He3.
+        apply estate_eqb_true in He4. repeat split; assumption.
+      * unfold all_buffers_busyb in Hbusy. rewrite forallb_forall in Hbusy.
+        intros t Ht. specialize (Hbusy t). rewrite in_seq in Hbusy.
+        specialize (Hbusy (conj (Nat.le_0_l t) Ht)). apply existsb_exists in Hbusy.
+        destruct Hbusy as [e [_ He]]. apply andb_prop in He. destruct He as [Hd Hr].
+        apply opt_nat_eqb_true in Hd. apply negb_true_iff, Nat.eqb_neq in Hr.
+        exists e. split; [exact Hd|lia].
+      * rewrite forallb_forall in Hnk. intros e Hin. specialize (Hnk e Hin).
+        apply negb_true_iff, N.eqb_neq in Hnk. exact Hnk.
+    + apply andb_prop in Hop. destruct Hop as [Hin Hop].
+      apply andb_prop in Hop. destruct Hop as [Hk Hop].
+      apply andb_prop in Hop. destruct Hop as [Hd Hop].
+      apply andb_prop in Hop. destruct Hop as [Hc _].
+      apply memb_true in Hin. apply andb_prop in Hk. destruct Hk as [Hk Hk'].
+      apply N.eqb_eq in Hk. apply N.eqb_eq in Hk'. apply opt_nat_eqb_true in Hd.
+      split; [exact Hin|]. split; [exact Hk|]. split; [exact Hk'|]. split; [exact Hd|].
+      destruct (data s' e) as [t|]; [|discriminate]. exists t. split; [reflexivity|].
+      apply andb_prop in Hc. destruct Hc as [C1 C2].
+      apply opt_N_eqb_true in C1. apply opt_N_eqb_true in C2. split; assumption.
+    + apply andb_prop in Hop. destruct Hop as [Hin Hop].
+      apply andb_prop in Hop. destruct Hop as [Hk Hop].
+      apply andb_prop in Hop. destruct Hop as [Hd _].
+      apply memb_true in Hin. apply N.eqb_eq in Hk.
+      split; [exact Hin|]. split; [exact Hk|].
+      destruct (data s' e) as [t|]; [|discriminate]. exists t. split; [reflexivity|].
+      rewrite forallb_forall in Hd. intros x Hdx.
+      destruct (Nat.lt_ge_cases x (2 * cap s)) as [Hlt|Hge];
+        [|rewrite (proj1 (Hsc x Hge)) in Hdx; discriminate].
+      specialize (Hd x (proj2 (in_eids s x) Hlt)).
+      rewrite (proj2 (opt_nat_eqb_true _ _) Hdx) in Hd. cbn [negb orb] in Hd.
+      apply orb_prop in Hd. destruct Hd as [Hd|Hd]; apply Nat.eqb_eq in Hd; [left|right]; exact Hd.
+    + discriminate.
+Qed.
